@@ -969,3 +969,30 @@ package rsm
 // with that index -- otherwise the receiver re-applies entries the streamed data already reflects.
 //@ func (s *StateMachine) ReadyToStream [C08]
 //@ ensures result == (!s.onDiskSM || s.lastApplied.index >= s.onDiskInitIndex)
+
+// ---------------------------------------------------------------- C14: the reader's check of the header checksum
+// The 1KB header of an image is len | header record | crc32(header record) | padding. The reader accepts a header whose
+// checksum slot is four zero bytes (written by an old version) and otherwise ONLY if the slot equals the CRC-32 of exactly
+// the header record bytes it is about to decode; getHeader returns a header only after that check said yes (a mismatch
+// is fail-stop).
+// gHdrChecks / gHdrOK: how often validateHeader has run, and its latest verdict
+//@ ghost var gHdrChecks int
+//@ ghost var gHdrOK bool
+//@ ghost var gHdrData int
+//@ func validateHeader [C14]
+//@ noframe
+//@ nobounds
+//@ ghostset gHdrChecks := old(gHdrChecks) + 1
+//@ ghostset gHdrOK := result
+//@ ghostset gHdrData := ptr(header)
+//@ ensures ufb("byteseq", ptr(crc32), len(crc32), ptr(fourZeroBytes), len(fourZeroBytes)) ==> result
+//@ ensures !ufb("byteseq", ptr(crc32), len(crc32), ptr(fourZeroBytes), len(fourZeroBytes)) ==> result == ufb("byteseq", gHashOut, gHashOutLen, ptr(crc32), len(crc32)) && fileutil.gMWptr == ptr(header) && fileutil.gMWlen == len(header)
+//@ func mustGetVersionedReader [C14]
+//@ trusted builds the block reader for the image version and checksum type
+//@ func (sr *SnapshotReader) getHeader [C14]
+//@ noframe
+//@ nobounds
+//@ ensures result1 == nil ==> gHdrChecks == old(gHdrChecks) + 1 && gHdrOK
+// (read-only library calls used by getHeader: no effect on modelled state)
+//@ extern io/fs (fi FileInfo) Size
+//@ extern io LimitReader
